@@ -4,6 +4,8 @@ import (
 	"encoding/binary"
 	"math/bits"
 
+	proto "github.com/golang/protobuf/proto"
+	"google.golang.org/protobuf/types/known/wrapperspb"
 	"pgregory.net/rapid"
 
 	"verif/harness/gen"
@@ -140,4 +142,49 @@ func LenSweep(lo, hi uint, key uint64) []int {
 		}
 	}
 	return out
+}
+
+// Into puts the content of frame f into the existing message object m (the caller re-uses one message for several frames:
+// fill, Size, fill again, Marshal). It reports false when m is not the message type of f.
+func (f Frame) Into(m proto.Message) bool {
+	switch x := m.(type) {
+	case *RawV:
+		if f.Kind != "raw" || !f.Versioned {
+			return false
+		}
+		x.B, x.Ver = append([]byte(nil), f.Payload...), string(f.Ver)
+	case *Raw:
+		if f.Kind != "raw" || f.Versioned {
+			return false
+		}
+		x.B = append([]byte(nil), f.Payload...)
+	case *BytesV:
+		if f.Kind != "bytes" || !f.Versioned {
+			return false
+		}
+		x.BytesValue.Value, x.Ver = append([]byte(nil), f.Payload...), string(f.Ver)
+	case *wrapperspb.BytesValue:
+		if f.Kind != "bytes" || f.Versioned {
+			return false
+		}
+		x.Value = append([]byte(nil), f.Payload...)
+	case *StringV:
+		if f.Kind != "string" || !f.Versioned {
+			return false
+		}
+		x.StringValue.Value, x.Ver = string(f.Payload), string(f.Ver)
+	case *wrapperspb.StringValue:
+		if f.Kind != "string" || f.Versioned {
+			return false
+		}
+		x.Value = string(f.Payload)
+	case *wrapperspb.Int64Value:
+		if f.Kind != "int64" {
+			return false
+		}
+		x.Value = f.Int
+	default:
+		return false
+	}
+	return true
 }
